@@ -63,6 +63,18 @@ pub fn replay(_ctx: &Ctx, case: &Value) -> Outcome {
             o.diverge(format!("the entry points fail with different categories: {x} / {y}"));
         }
     }
+    if let Some(rec) = c20::recorded_event(case, "map") {
+        // replay of a history that TLC's trace validation rejected (the verdict on the map is TLC's): establish
+        // whether the real code still exports the rejected artefact
+        let mut res = c20::real_json(&b.mapped);
+        if let Some(m) = res.get_mut("ok").and_then(|k| k.get_mut("map")) {
+            *m = c20::strip_names(m);
+        }
+        if rec["res"] == res && rec["same"] == json!(b.same) && b.same {
+            o.violate(Violation::new("source map rejected by trace validation (reproduced)", Value::Null, res)
+                .note("the real code exports the same (body, expanded body, map) that WFMap in spec/trace/GateSequenceTrace.tla rejected"));
+        }
+    }
     if let Some(w) = case.get("res") {
         match (&b.mapped, w.get("ok")) {
             (Real::Ok { map: Some(m), .. }, Some(k)) => {
